@@ -7,6 +7,7 @@ use std::panic::{AssertUnwindSafe, catch_unwind};
 
 mod drv_codec;
 mod drv_conc;
+mod drv_hostile;
 mod drv_http;
 mod drv_misc;
 mod drv_padding;
@@ -17,7 +18,8 @@ mod transport;
 mod util;
 
 fn dispatch(drv: &str, args: &[&str]) -> String {
-    let packages: [fn(&str, &[&str]) -> Option<String>; 8] = [
+    let packages: [fn(&str, &[&str]) -> Option<String>; 9] = [
+        drv_hostile::dispatch,
         drv_codec::dispatch,
         drv_padding::dispatch,
         drv_parsers::dispatch,
@@ -36,7 +38,10 @@ fn dispatch(drv: &str, args: &[&str]) -> String {
 }
 
 fn main() {
-    std::panic::set_hook(Box::new(|_| {}));
+    // panics are counted (any task, any thread) and otherwise silent; the per-case catch_unwind reports its own
+    std::panic::set_hook(Box::new(|_| {
+        drv_hostile::PANICS.fetch_add(1, std::sync::atomic::Ordering::SeqCst);
+    }));
     let stdin = std::io::stdin();
     let stdout = std::io::stdout();
     let mut out = std::io::BufWriter::new(stdout.lock());
